@@ -116,7 +116,7 @@ func (l *loader) problem(format string, args ...any) {
 func (l *loader) load(ddl string) *Error {
 	toks, lerr := lex(ddl)
 	if lerr != nil {
-		return lerr
+		return errf("syntax", "%s", lerr.Msg)
 	}
 	stmts, texts, serr := splitStatements(ddl, toks)
 	if serr != nil {
